@@ -11,6 +11,7 @@ import (
 	"strconv"
 	"strings"
 	"sync"
+	"time"
 
 	"github.com/plgd-dev/go-coap/v3/message/codes"
 	"github.com/plgd-dev/go-coap/v3/message/pool"
@@ -23,7 +24,7 @@ const c12MaxEvents = 6000
 // c12Emit writes one lifecycle trace as a case. capacity = total capacity of the scenario's pools.
 // Besides the caller's buckets it counts, per object life (from hand-out to hand-out), the SHAPE of the life
 // (the sequence of event kinds): the notes list the shapes seen against the modelled paths.
-func c12Emit(e *Emitter, desc string, capacity int, evs []lcEvent, buckets ...string) {
+func c12Emit(e *c12Out, desc string, capacity int, evs []lcEvent, buckets ...string) {
 	if len(evs) > c12MaxEvents {
 		evs = evs[:c12MaxEvents]
 		buckets = append(buckets, "truncated")
@@ -32,7 +33,7 @@ func c12Emit(e *Emitter, desc string, capacity int, evs []lcEvent, buckets ...st
 	lives := map[int][]string{}
 	flush := func(o int) {
 		if l := lives[o]; len(l) > 0 {
-			e.Hist["shape:"+strings.Join(l, ".")]++
+			e.Count("shape:" + strings.Join(l, "."))
 		}
 		delete(lives, o)
 	}
@@ -55,7 +56,7 @@ func c12Emit(e *Emitter, desc string, capacity int, evs []lcEvent, buckets ...st
 	e.AddW(fmt.Sprintf("Trace %d %s", capacity, coqLc(evs)), desc, re && ho, 1+len(evs)/60, buckets...)
 }
 
-func emitTraceCap(e *Emitter, tr *poolTracker, desc, fam string, capacity int) {
+func emitTraceCap(e *c12Out, tr *poolTracker, desc, fam string, capacity int) {
 	evs := tr.take()
 	c12Emit(e, desc, capacity, evs, fam, fmt.Sprintf("events<%d", (len(evs)/500+1)*500))
 }
@@ -65,7 +66,7 @@ func emitTraceCap(e *Emitter, tr *poolTracker, desc, fam string, capacity int) {
 // descriptor: P#<shared>|le=<n>|<ops>   shared = 0: one pool of 256 per connection; k > 0: ONE pool of
 // capacity k used by both connections (messages migrate between the connections, releases beyond k are
 // dropped by the pool).
-func c12Pair(e *Emitter, tr *poolTracker, desc, arg string) {
+func c12Pair(e *c12Out, tr *poolTracker, desc, arg string) {
 	i := strings.Index(arg, "|")
 	if i < 0 {
 		return
@@ -89,7 +90,16 @@ func c12Pair(e *Emitter, tr *poolTracker, desc, arg string) {
 		capacity += 256
 		return p
 	}
-	defer func() { c13PoolFor = nil }()
+	watch := c13Watch
+	if c13Watch > 8*time.Second {
+		c13Watch = 8 * time.Second // waits of the script end within milliseconds unless the pool is corrupted
+	}
+	defer func() {
+		c13PoolFor = nil
+		if c13Watch == 8*time.Second {
+			c13Watch = watch // (after a history that hung the runner keeps its own, shorter, watchdog)
+		}
+	}()
 	_, ok, bad := runC13History(le, ops)
 	fam := []string{"P"}
 	if !ok {
@@ -188,7 +198,7 @@ func dbgC12() bool { return os.Getenv("HXDBG") != "" }
 // Q#<capacity>,<seed>,<n>: one goroutine, a random script of acquires and releases on a pool of the given capacity;
 // the script's observations (did the release put the message back, did the acquire hand out a recycled one) are
 // compared step by step with the counter model, the lifecycle trace goes through the ownership monitor.
-func c12PoolSeq(e *Emitter, tr *poolTracker, desc, arg string) {
+func c12PoolSeq(e *c12Out, tr *poolTracker, desc, arg string) {
 	var capacity, n int
 	var seed uint64
 	fmt.Sscanf(arg, "%d,%d,%d", &capacity, &seed, &n)
@@ -231,7 +241,7 @@ func c12PoolSeq(e *Emitter, tr *poolTracker, desc, arg string) {
 // R#<capacity>,<seed>,<goroutines>,<n>: goroutines acquire and release concurrently on one small pool, every
 // goroutine writing to the messages it holds (a recycled message handed to two owners would be seen as a broken
 // poison pattern or a changed digest).
-func c12PoolPar(e *Emitter, tr *poolTracker, desc, arg string) {
+func c12PoolPar(e *c12Out, tr *poolTracker, desc, arg string) {
 	var capacity, g, n int
 	var seed uint64
 	fmt.Sscanf(arg, "%d,%d,%d,%d", &capacity, &seed, &g, &n)
